@@ -45,6 +45,18 @@ func main() {
 		props.C18SchedWorker(os.Args[3:])
 		return
 	}
+	if id == "C15" && os.Args[2] == "--term" {
+		props.C15TermWorker(os.Args[3:])
+		return
+	}
+	if id == "C15" && os.Args[2] == "--triage" {
+		props.C15Triage(os.Args[3], os.Args[4])
+		return
+	}
+	if id == "C15" && os.Args[2] == "--term-one" {
+		props.C15TermOneCmd(os.Args[3])
+		return
+	}
 	if id == "C04" && os.Args[2] == "--one" {
 		props.C04One(os.Args[3:])
 		return
